@@ -2,6 +2,8 @@
 
 from __future__ import annotations
 
+import os
+
 from pestverif import fullcase, gprint, refdiff
 from pestverif.runner import Ctx
 
@@ -279,7 +281,7 @@ def run_shard(ctx: Ctx, spec):
     try:
 
         @hypothesis.seed(ctx.sub_seed("random"))
-        @settings(max_examples=SIZES[ctx.tier], deadline=None, database=None, phases=[Phase.generate],
+        @settings(max_examples=int(os.environ.get("PESTVERIF_C02_N", SIZES[ctx.tier])), deadline=None, database=None, phases=[Phase.generate],
                   suppress_health_check=list(HealthCheck))
         @hypothesis.given(st.randoms(use_true_random=False))
         def t(rng):
